@@ -111,6 +111,16 @@ def check_lift(spec, ctx):
     # given shuffled, the collection is the same haplotype
     vc2 = mkvc({"variants": [variants[i % len(variants)] for i in spec["shuffle"]] if sorted(set(i % len(variants) for i in spec["shuffle"])) == list(range(len(variants))) and len(spec["shuffle"]) == len(variants) else variants}, parent)
     ctx.eq("collection_order_independent", str(vc2.alternative_genomic_sequence), str(vc.alternative_genomic_sequence))
+    # a haplotype is a value: the list it was built from is the caller's working list (next haplotype = same list plus / minus a
+    # variant) and what happens to it later does not reach into the collection
+    from inscripta.biocantor.gene.variants import VariantIntervalCollection as _VC
+    work = [mkvar(v, parent) for v in variants]
+    work.reverse()
+    vc3 = _VC(work, parent_or_seq_chunk_parent=parent)
+    work.append(mkvar({"start": len(g) - 1, "end": len(g), "sequence": "T" if g[-1] != "T" else "A", "variant_type": "SNV"}, parent))
+    del work[0]
+    ctx.eq("collection_unaffected_by_later_edits_of_the_callers_list", str(vc3.alternative_genomic_sequence), apply_edits(refseq, variants, offset=cs))
+    ctx.eq("collection_keeps_its_variants", sorted((x.start, x.end) for x in vc3.variant_intervals), sorted((v["start"], v["end"]) for v in variants))
     loc = mkloc_blocks([list(b) for b in blocks], strand, chrom_parent(g))
     clean = all(c != "straddles_boundary" for c in cl)
     # --- single variants
@@ -260,6 +270,20 @@ def check_incorporate(spec, ctx):
         ctx.true("incorporate_refused_clean_valueerror", not clean, repr(e)[:120])
         return
     ctx.eq("operand_unchanged", json.dumps(obj.to_dict(), default=str, sort_keys=True), before)
+    # the derived gene / feature collection chooses its primary member by the stated rule applied to ITS OWN members (an indel can
+    # change the ranking): flagged member if any, else longest CDS, then longest spliced length, then list position
+    if kind in ("gene", "fc"):
+        kids = new.transcripts if kind == "gene" else new.feature_intervals
+        src_kids = o["transcripts"] if kind == "gene" else o["features"]
+        flagged = [i for i, t in enumerate(src_kids) if t.get("is_primary_tx") or t.get("is_primary_feature")]
+        if len(kids) == len(src_kids):
+            if flagged:
+                want = flagged[0]
+            else:
+                want = min(range(len(kids)), key=lambda i: (-(kids[i].cds_size if kind == "gene" else 0), -len(kids[i]), i))
+            got = [i for i, k_ in enumerate(kids) if k_ is (new.get_primary_transcript() if kind == "gene" else new.get_primary_feature())]
+            ctx.eq("derived_primary_member_by_rule", got, [want])
+            ctx.label("derived_primary_checked")
     if not clean:
         return
     for name, bl, strand, get in parts:
